@@ -21,7 +21,7 @@ ASSUMPTIONS = ['reduce-only orders are submitted only against an open position; 
                'threshold accept either outcome, exactly representable boundary cases are judged strictly']
 MIN_OBS = {'session_state_comparisons': 3000, 'session_fills': 500, 'histories': 300, 'ops': 5000, 'eff:open': 200, 'eff:increase': 200, 'eff:reduce': 200, 'eff:close': 200,
            'eff:flip': 50, 'eff:oversize_close': 50, 'rejections_agreed': 100, 'near_threshold_accepts': 50,
-           'exact_boundary_cases': 50, 'cancel_round_trips': 300, 'state_comparisons': 5000}
+           'exact_boundary_cases': 50, 'cancel_round_trips': 300, 'state_comparisons': 5000, 'histories_isolated_mode': 50}
 SYMS = ['BTC-USDT', 'ETH-USDT', 'SOL-USDT']
 
 
@@ -51,13 +51,16 @@ def _history(job):
         if dyadic:
             return max(round(x * 8) / 8.0, 0.125)
         return max(round(x, nd), 0.0001)
+    # (the account arithmetic of the statement is the same in both leverage modes; these histories drive the account without
+    # the simulator, so nothing is force-closed in isolated mode)
+    lmode = rng.choice(['cross', 'cross', 'isolated'])
     cfg = {'starting_balance': bal, 'fee': fee, 'type': 'futures', 'futures_leverage': lev,
-           'futures_leverage_mode': 'cross'}
+           'futures_leverage_mode': lmode}
     w = direct.World(cfg, syms, prices=prices)
     mdl = models.AccountFutures(bal, lev, fee, syms)
     for s in syms:
         mdl.price[s] = prices[s]
-    cnt, viol, hist = {'histories': 1}, [], []
+    cnt, viol, hist = {'histories': 1, 'histories_isolated_mode': int(lmode == 'isolated')}, [], []
     live = {}     # key -> order
     exch = w.exchange
     from jesse.exceptions import InsufficientMargin
